@@ -163,9 +163,13 @@ def run_random_session(seed, prof, frontend="wsgi", prefix="/", backend="tree", 
                     data, valid = rng.choice(vcf if usevcf else ics)
                 im = inm = None
                 if rng.random() < prof["cond"]:
-                    if rng.random() < 0.6:
+                    r2 = rng.random()
+                    if r2 < 0.5:
                         im = rng.choice(COND_CLASSES)
-                    else:
+                    elif r2 < 0.8:
+                        inm = rng.choice(COND_CLASSES)
+                    else:     # both headers on one request
+                        im = rng.choice(COND_CLASSES)
                         inm = rng.choice(COND_CLASSES)
                 fault = rng.randint(1, 14) if rng.random() < prof["fault"] else 0
                 s.put(c, n, data, im=im, inm=inm, valid=valid, fault=fault)
